@@ -85,6 +85,8 @@ type FnCtx struct {
 	globals  []string
 	globalSeen map[string]bool
 	anchorsDone map[string]bool
+	ghosts   map[string]Val
+	ghostAt  map[string]*ssa.BasicBlock
 	uncontracted map[string]bool
 	externs  map[string]bool
 	curIdx   int
